@@ -1,4 +1,5 @@
 import Generated.Funcs
+import SlimProps.BridgeSem.PrintAxioms
 import SlimProps.BridgeSem.Common
 import SlimProps.BridgeSem.Extern
 import SlimModel.Legacy
@@ -13,7 +14,7 @@ import SlimProofs.BitsLemmas.Words
   `leaves` — an alias of `st.inner.Leaves` — as updates of the returned `*SlimTrie`)
   = the model's `Legacy.fixLeafSize` (SlimModel/Legacy.lean), INCLUDING when it panics:
 
-    `before000512FixLeafSize_sem`     W.before000512FixLeafSize fuel (absInst s v) enc
+    `before000512FixLeafSize_sem`     Generated.W.before000512FixLeafSize fuel (absInst s v) enc
                                         = (okOpt (Legacy.fixLeafSize s enc)).map (absInst · v)
         hypotheses `FixLeafFits s enc` (only when the function has work to do: `Leaves` non-nil,
         `PresenceBM` nil, `FixedSize = 0`, `enc = some w`): `w < 2^31`, `len(Leaves.Bytes) < 2^31` (the two
@@ -172,14 +173,14 @@ theorem newBMr64_sem (ps : List Nat) (capa : Nat) (hc : max capa (lastSucc ps) +
     `i = n` and `indexes[k] = k` for the positions it visited -/
 theorem fixLeafSize_loop_sem (n : Nat) (hn : n < 2 ^ 31) :
     ∀ (fuel i : Nat) (idx : List Nat), i ≤ n → n - i < fuel → idx.length = n →
-      W.before000512FixLeafSize_loop1 n fuel (i, idx)
+      Generated.W.before000512FixLeafSize_loop1 n fuel (i, idx)
         = some (Sum.inr (n, idx.take i ++ List.range' i (n - i))) := by
   intro fuel
   induction fuel with
   | zero => intro i idx _ h; omega
   | succ fuel ih =>
     intro i idx hi hf hlen
-    unfold W.before000512FixLeafSize_loop1
+    unfold Generated.W.before000512FixLeafSize_loop1
     by_cases hlt : i < n
     · have hset : Go.setS 32 idx i i = some (idx.set i i) := by
         unfold Go.setS; rw [if_pos ⟨by omega, by omega⟩]
@@ -226,9 +227,9 @@ theorem except_bind_error {α β : Type} (f : α → Except Err β) (e : Err) :
 theorem before000512FixLeafSize_sem (s : SlimMsg) (enc : Option Nat) (v : Option W.slimVars) (fuel : Nat)
     (hfit : FixLeafFits s enc)
     (hfuel : ∀ lv, s.leaves = some lv → lv.bytes.length < fuel) :
-    W.before000512FixLeafSize fuel (absInst s v) enc
+    Generated.W.before000512FixLeafSize fuel (absInst s v) enc
       = (okOpt (Legacy.fixLeafSize s enc)).map (fun s' => absInst s' v) := by
-  unfold W.before000512FixLeafSize Legacy.fixLeafSize
+  unfold Generated.W.before000512FixLeafSize Legacy.fixLeafSize
   cases hl : s.leaves with
   | none => simp [absInst, absSlim, hl, Go.deref]
   | some lv =>
@@ -275,9 +276,9 @@ theorem before000512FixLeafSize_sem (s : SlimMsg) (enc : Option Nat) (v : Option
 theorem before000512FixLeafSize_panics (s : SlimMsg) (enc : Option Nat) (v : Option W.slimVars) (fuel : Nat)
     (lv : VLenArrayMsg) (hl : s.leaves = some lv) (hp : lv.presenceBM = none)
     (h : lv.fixedSize ≠ 0 ∨ enc = none ∨ enc = some 0) :
-    W.before000512FixLeafSize fuel (absInst s v) enc = none
+    Generated.W.before000512FixLeafSize fuel (absInst s v) enc = none
       ∧ ∃ msg, Legacy.fixLeafSize s enc = .error (.panic msg) := by
-  unfold W.before000512FixLeafSize Legacy.fixLeafSize
+  unfold Generated.W.before000512FixLeafSize Legacy.fixLeafSize
   by_cases hf : lv.fixedSize = 0
   · rcases h with h | h | h
     · exact absurd hf h
@@ -301,21 +302,21 @@ example : FixLeafFits exLegacyLeaves (some 4) := by
 def exFixedLeaves : SlimMsg :=
   { leaves := some { n := 3, eltCnt := 3, fixedSize := 4, bytes := [1, 0, 0, 0, 2, 0, 0, 0, 3, 0, 0, 0], presenceBM := some { words := [7], rankIndex := [0] } } }
 
-example : W.before000512FixLeafSize 13 (absInst exLegacyLeaves none) (some 4)
+example : Generated.W.before000512FixLeafSize 13 (absInst exLegacyLeaves none) (some 4)
     = some (absInst exFixedLeaves none) := by decide
 
 example : okOpt (Legacy.fixLeafSize exLegacyLeaves (some 4)) = some exFixedLeaves := by decide
 
-example : W.before000512FixLeafSize 13 (absInst exLegacyLeaves none) (some 0) = none := by decide
-example : W.before000512FixLeafSize 13 (absInst exLegacyLeaves none) none = none := by decide
+example : Generated.W.before000512FixLeafSize 13 (absInst exLegacyLeaves none) (some 0) = none := by decide
+example : Generated.W.before000512FixLeafSize 13 (absInst exLegacyLeaves none) none = none := by decide
 /-- too little fuel is `none`, not a wrong answer -/
-example : W.before000512FixLeafSize 2 (absInst exLegacyLeaves none) (some 4) = none := by decide
+example : Generated.W.before000512FixLeafSize 2 (absInst exLegacyLeaves none) (some 4) = none := by decide
 
 end BridgeSem
 
-#print axioms BridgeSem.bitmapOf_sem
-#print axioms BridgeSem.indexRank64_sem
-#print axioms BridgeSem.newBMr64_sem
-#print axioms BridgeSem.fixLeafSize_loop_sem
-#print axioms BridgeSem.before000512FixLeafSize_sem
-#print axioms BridgeSem.before000512FixLeafSize_panics
+#print_axioms? BridgeSem.bitmapOf_sem
+#print_axioms? BridgeSem.indexRank64_sem
+#print_axioms? BridgeSem.newBMr64_sem
+#print_axioms? BridgeSem.fixLeafSize_loop_sem
+#print_axioms? BridgeSem.before000512FixLeafSize_sem
+#print_axioms? BridgeSem.before000512FixLeafSize_panics
